@@ -405,7 +405,8 @@ func c13Sequential(ch *zsim.Choices, trace bool) *RunResult {
 			if clock < 0 {
 				clock = 0
 			}
-			lvl := []zerolog.Level{zerolog.InfoLevel, zerolog.DebugLevel, zerolog.WarnLevel, zerolog.ErrorLevel, zerolog.TraceLevel, zerolog.NoLevel}[ch.Intn(6)]
+			// WithLevel(Fatal/Panic) neither exits nor panics; LevelSampler has no slot for them
+			lvl := []zerolog.Level{zerolog.InfoLevel, zerolog.DebugLevel, zerolog.WarnLevel, zerolog.ErrorLevel, zerolog.TraceLevel, zerolog.NoLevel, zerolog.FatalLevel, zerolog.PanicLevel, zerolog.Level(9)}[ch.Intn(9)]
 			var got, want bool
 			viaLogger := ch.Chance(1, 2)
 			if viaLogger {
